@@ -45,6 +45,12 @@ func templateToRegularExpression(template string) (expression string, literalCou
 		}
 		buffer.WriteString("/")
 		if strings.HasPrefix(each, "{") {
+			// a custom verb behind the variable, as in {id}:cancel, is matched literally
+			customVerb := ""
+			if closing := strings.LastIndex(each, "}"); closing != -1 && hasCustomVerb(each[closing+1:]) {
+				customVerb = each[closing+1:]
+				each = each[:closing+1]
+			}
 			// check for regular expression in variable
 			colon := strings.Index(each, ":")
 			var varName string
@@ -62,6 +68,7 @@ func templateToRegularExpression(template string) (expression string, literalCou
 				varName = strings.TrimSpace(each[1 : len(each)-1])
 				buffer.WriteString("([^/]+?)")
 			}
+			buffer.WriteString(regexp.QuoteMeta(customVerb))
 			varNames = append(varNames, varName)
 			varCount += 1
 		} else {
